@@ -1,6 +1,7 @@
-(* Extraction of the front-end models (parser, printer).  ExtrOcamlBasic only. *)
+(* Extraction of the front-end models (lexer, parser, printer, round trip).  ExtrOcamlBasic only. *)
 From Coq Require Import Extraction ExtrOcamlBasic.
-From GrolModel Require Import Ast Parser Printer.
-Extraction Language OCaml.
 From GrolGen Require Import Gen_Consts.
-Extraction "front_model.ml" parse_program default_fuel print_program quote_in_domain go_quote node_tok token_STRING token_EOF token_EOL.
+From GrolModel Require Import Ast Lexer Parser Printer AstWf Frontend.
+Extraction Language OCaml.
+Extraction "front_model.ml" front_parse front_tokens roundtrip clean print_program quote_in_domain go_quote
+  node_tok program_nil_free program_printable token_STRING token_EOF token_EOL lex_all.
